@@ -166,6 +166,11 @@ func Run(r io.Reader, module string, ads []Adapter, opt Options) ([]*Summary, er
 			cp.Adapter = ad.Name()
 			cp.Branches = map[string]int64{}
 			cp.UnbuildableEx = cnt[i].unbuildEx
+			cp.ExtraCounters = map[string]int64{}
+			if c, ok := ad.(interface{ Counters() map[string]int64 }); ok {
+				// adapter-specific counters (e.g. calls not executed after a hang budget was spent)
+				cp.ExtraCounters = c.Counters()
+			}
 			finish(&cp, cols[i], start, cnt[i])
 			out[i] = &cp
 		}
